@@ -207,11 +207,16 @@ def body_n1(scn):
     return out
 
 
+ADV_EXCLUDE = ()
+
+
 def plan(tier):
-    return [("runs", 16), ("detect", 16), ("n1warm", 8)]
+    return [("runs", 16), ("detect", 16), ("n1warm", 8), ("advopts", 16)]
 
 
 def run_part(res, part, tier, seed, shard, nshards):
+    if part == "advopts":
+        return runlevel.adv_sweep(res, PROFILE, tier, seed, shard, nshards, body_run, exclude=ADV_EXCLUDE)
     if part == "n1warm":
         runlevel.sweep(res, N1_PROFILE, N_N1[tier], seed + 99, shard, nshards, body_n1)
     elif part == "runs":
@@ -222,7 +227,7 @@ def run_part(res, part, tier, seed, shard, nshards):
 
 def minimise(part, tier, sig, case, seed):
     mr = 12 if tier == "quick" else 40
-    if part == "runs":
+    if part in ("runs", "advopts"):
         return runlevel.field_minimise(case, sig, body_run, max_runs=mr)
     if part == "n1warm":
         return runlevel.field_minimise(case, sig, body_n1, max_runs=mr)
